@@ -11,6 +11,20 @@ Request line :  <network> <cachemode> <step> <step> ...
   val        :  i<int> | N | s<id> | t<k>c / t<k>u (corpus transaction k, confirmed / unconfirmed) | L<n>v<b> | d<id>
   seeding    :  seedaddr/<addr>.<last_block|N>.<balance|N>/...   calls Cache.store_address directly (warm address cache)
 Answer line  :  per step  <ret> R=<id>:<val>,.. E=<id>:<err>,.. C=<provider call order>   joined by ' ; '
+
+Address index (cachemode xfile | xoff):  <network> <cachemode> W:<tx>,<tx>,.. <step> ..
+  tx         :  height.src.dst.oidx.value.flag.storable    the chain history, oldest first (ids = positions)
+                 height 0 = unconfirmed; src F (foreign input) | j (spends the observed output of tx j);
+                 dst 0 | 1 (ADDRS_X) | B (foreign); oidx output_n of the observed output (1: a foreign output in front);
+                 flag N|F|T spent flag as the provider reports it; storable 0 = the provider gives no input value
+  step       :  gettransactions/<addr>.<after|-|x>.<limit>/..  getutxosx/<addr>.<after|-|x>.<limit>/..
+                gettransactionx/<k|x>/..  cacheinfo/<addr>/..      (after / k = position in the world, x = unknown id)
+                getblock/<height>.<parse 0|1>.<page>.<limit>/..   (the block holds the world transactions of that height)
+  prov q     :  v<m>  the provider knows the first m transactions of the world and answers the query it is asked
+                (gettransactions / getutxos: those of the address after after_txid, at most limit; gettransaction: the
+                transaction or ClientError('boom404')) | e<id> | a | f | n | o<val> as above
+  answer     :  X<k>h<height>s<flag>.. | U<k>n<n>v<value>h<height>.. | x<k>h..s.. | B<height>c<tx_count>:<tx>.<tx>..
+                (block: transactions as above, or i<k> for ids)   + N=<results_cache_n> K=<complete>
 """
 import sys, os, json, types, logging, sqlite3, hashlib, subprocess
 sys.path.insert(0, os.path.dirname(os.path.abspath(__file__)))
@@ -63,6 +77,7 @@ from bitcoinlib.services import services as SS            # noqa: E402
 from bitcoinlib.services.services import Service, ServiceError, Cache   # noqa: E402
 from bitcoinlib.services.baseclient import ClientError    # noqa: E402
 from bitcoinlib.transactions import Transaction           # noqa: E402
+from bitcoinlib.blocks import Block                       # noqa: E402
 from bitcoinlib.networks import Network                   # noqa: E402
 
 DATA = os.environ['BCL_DATA_DIR']
@@ -256,6 +271,8 @@ class FakeClientBase(object):
 
         def call(*args):
             CALLS.append(pid)
+            if o[0] == 'v':
+                return view_answer(int(o[1:]), method, args)
             if o[0] == 'o':
                 return build_value(o[1:], method, args)
             if o[0] == 'e':
@@ -317,6 +334,284 @@ def close(srv):
             eng.dispose()
     except Exception:
         pass
+
+# ------------------------------------------------------------------ the address index: worlds of real transactions
+XKEYS = {}
+WORLD = []        # the current case: list of dict(spec fields, raw, txid, addr ...)
+WORLD_MEMO = {}
+UNKNOWN_TXID = 'ee' * 32
+
+
+def xkeys():
+    if not XKEYS:
+        from bitcoinlib.keys import Key
+        for name, sec in (('0', '11'), ('1', '12'), ('F', '13'), ('B', '14')):
+            XKEYS[name] = Key(sec * 32, network=NET[0])
+        XKEYS['net'] = NET[0]
+    return XKEYS
+
+
+def build_world(spec):
+    """spec 'W:tx,tx,..' -> list of world entries with real signed raw transactions (memoised per prefix)"""
+    ks = xkeys()
+    body = spec[2:]
+    out = []
+    if not body:
+        return out
+    prefix = ''
+    for k, sp in enumerate(body.split(',')):
+        prefix += ',' + sp
+        memo = WORLD_MEMO.get((NET[0], prefix))
+        if memo is None:
+            h, src, dst, oidx, val, flag, stor = sp.split('.')
+            h, oidx, val = int(h), int(oidx), int(val)
+            t = Transaction(network=NET[0], witness_type='legacy')
+            if src == 'F':
+                inval = val + 1000 + (546 if oidx else 0)
+                t.add_input(prev_txid=bytes([k + 1]) * 32, output_n=0, keys=ks['F'].public(), value=inval,
+                            witness_type='legacy')
+                signer = ks['F']
+                src_addr = None
+            else:
+                pj = out[int(src)]
+                inval = pj['value']
+                t.add_input(prev_txid=pj['txid'], output_n=pj['oidx'], keys=ks[pj['dst']].public(), value=inval,
+                            witness_type='legacy')
+                signer = ks[pj['dst']]
+                src_addr = pj['dst'] if pj['dst'] in ('0', '1') else None
+            if oidx:
+                t.add_output(546, ks['B'].address())
+            t.add_output(val, ks[dst].address())
+            t.sign(signer)
+            raw = t.raw_hex()
+            txid = Transaction.parse_hex(raw, network=NET[0]).txid
+            memo = dict(height=h, src=src, src_addr=src_addr, dst=dst, oidx=oidx, value=val, inval=inval,
+                        flag={'N': None, 'F': False, 'T': True, 'A': 'A'}[flag], storable=stor == '1', raw=raw, txid=txid)
+            WORLD_MEMO[(NET[0], prefix)] = memo
+        out.append(memo)
+    return out
+
+
+def world_tx(k, m):
+    """a fresh Transaction object as a provider client that knows the first m transactions hands it back"""
+    w = WORLD[k]
+    t = Transaction.parse_hex(w['raw'], network=NET[0])
+    if w['height']:
+        t.block_height = w['height']
+        t.confirmations = H0 - w['height'] + 1
+        t.date = _dt.datetime(2021, 9, 11, 12, 0, 0, tzinfo=_dt.timezone.utc)
+        t.status = 'confirmed'
+    else:
+        t.block_height = None
+        t.confirmations = 0
+        t.date = None
+        t.status = 'unconfirmed'
+    t.inputs[0].value = w['inval'] if w['storable'] else 0
+    t.outputs[w['oidx']].spent = any(WORLD[i]['src'] == str(k) for i in range(m)) if w['flag'] == 'A' else w['flag']
+    if w['storable']:
+        t.update_totals()
+    return t
+
+
+def xaddr(a):
+    return xkeys()[str(a)].address()
+
+
+def world_touches(k, a):
+    w = WORLD[k]
+    return w['src_addr'] == str(a) or w['dst'] == str(a)
+
+
+def block_header(h):
+    """deterministic header fields of the block at height h"""
+    d = lambda tag: hashlib.sha256(('%s%d' % (tag, h)).encode()).hexdigest()
+    return dict(block_hash=d('blk'), version=0x20000000, prev_block=d('blk%d' % (h - 1)) if False else d('prev'),
+                merkle_root=d('mrk'), time=1600000000 + h, bits=0x1d00ffff, nonce=h % 100000 + 7)
+
+
+def view_answer(m, method, args):
+    m = min(m, len(WORLD))
+    if method == 'getblock':
+        h, parse, page, limit = args
+        ks = [k for k in range(len(WORLD)) if WORLD[k]['height'] == h]
+        if not h or not ks or max(ks) >= m:
+            raise ClientError('boom404')
+        hd = block_header(h)
+        page_ks = ks[max((page - 1) * limit, 0):][:max(limit, 0)]
+        hd.update(txs=[world_tx(k, m) if parse else WORLD[k]['txid'] for k in page_ks], height=h, depth=H0 - h + 1,
+                  tx_count=len(ks))
+        return hd
+    if method == 'gettransaction':
+        for k in range(m):
+            if WORLD[k]['txid'] == args[0]:
+                return world_tx(k, m)
+        raise ClientError('boom404')
+    address, after_txid, limit = args[0], args[1], args[2]
+    a = [x for x in ('0', '1') if xaddr(x) == address]
+    a = a[0] if a else None
+    mine = [k for k in range(m) if world_touches(k, a)]
+    if after_txid:
+        ids = [WORLD[k]['txid'] for k in mine]
+        mine = mine[ids.index(after_txid) + 1:] if after_txid in ids else []
+    if method == 'gettransactions':
+        return [world_tx(k, m) for k in mine][:max(limit, 0)]
+    if method == 'getutxos':
+        spent = set(WORLD[k]['src'] for k in range(m) if WORLD[k]['src_addr'] == a)   # world positions of spent outputs
+        us = []
+        for k in mine:
+            w = WORLD[k]
+            if w['dst'] == a and str(k) not in spent:
+                us.append({'address': address, 'txid': w['txid'], 'confirmations': (H0 - w['height'] + 1) if w['height'] else 0,
+                           'output_n': w['oidx'], 'input_n': 0, 'block_height': w['height'] or None, 'fee': None, 'size': 0,
+                           'value': w['value'], 'script': '', 'date': None})
+        return us[:max(limit, 0)]
+    raise AttributeError(method)
+
+
+def world_index(txid):
+    for k, w in enumerate(WORLD):
+        if w['txid'] == txid:
+            return k
+    return None
+
+
+FLAG = {None: 'N', False: 'F', True: 'T'}
+
+
+def xtx_token(t):
+    k = world_index(t.txid)
+    if k is None:
+        return '?' + str(t.txid)[:8]
+    w = WORLD[k]
+    try:
+        ok = t.raw_hex() == w['raw'] and len(t.outputs) > w['oidx'] and t.outputs[w['oidx']].value == w['value'] and \
+            t.inputs[0].value == (w['inval'] if w['storable'] else 0) and t.outputs[w['oidx']].address == xkeys()[w['dst']].address()
+    except Exception:
+        ok = False
+    fl = FLAG.get(t.outputs[w['oidx']].spent, '?') if len(t.outputs) > w['oidx'] else '?'
+    return '%s%dh%ds%s' % ('' if ok else '!', k, t.block_height or 0, fl)
+
+
+def xval_token(v, ids_only=False):
+    if isinstance(v, Block):
+        return xblock_token(v, ids_only)
+    if isinstance(v, dict) and 'block_hash' in v and 'height' in v:
+        return 'Bi%s' % v['height']
+    if isinstance(v, Transaction):
+        return ('xi%s' % world_index(v.txid)) if ids_only else 'x' + xtx_token(v)
+    if isinstance(v, list) and v and all(isinstance(t, Transaction) for t in v):
+        if ids_only:
+            return 'Xi' + '.'.join(str(world_index(t.txid)) for t in v)
+        return 'X' + '.'.join(xtx_token(t) for t in v)
+    if isinstance(v, list) and v and all(isinstance(u, dict) and 'txid' in u and 'output_n' in u for u in v):
+        if ids_only:
+            return 'Ui' + '.'.join(str(world_index(u['txid'])) for u in v)
+        return 'U' + '.'.join('%sn%sv%sh%s' % (world_index(u['txid']), u['output_n'], u['value'], u['block_height'] or 0)
+                              for u in v)
+    if isinstance(v, list) and not v:
+        return 'X'
+    return val_token(v)
+
+
+def xblock_token(b, ids_only=False):
+    if ids_only:
+        return 'Bi%s' % b.height
+    hd = block_header(b.height or 0)
+    try:
+        ok = b.block_hash.hex() == hd['block_hash'] and b.prev_block.hex() == hd['prev_block'] and \
+            b.merkle_root.hex() == hd['merkle_root'] and b.time == hd['time'] and b.bits_int == hd['bits'] and \
+            b.nonce_int == hd['nonce'] and b.version_int == hd['version']
+    except Exception:
+        ok = False
+    items = []
+    for t in b.transactions:
+        if isinstance(t, Transaction):
+            items.append(xtx_token(t))
+        else:
+            k = world_index(t)
+            items.append('i%s' % ('?' if k is None else k))
+    return '%sB%sc%s:%s' % ('' if ok else '!', b.height, b.tx_count, '.'.join(items))
+
+
+def xid(s):
+    if s == '-':
+        return ''
+    if s == 'x':
+        return UNKNOWN_TXID
+    return WORLD[int(s)]['txid']
+
+
+def run_xstep(step, network, cache_uri):
+    method, arg, minp, maxp, maxe, dt, provs = step.split('/')
+    provs = parse_provs(provs)
+    write_providers(provs, network)
+    PROG.clear()
+    STATIC.clear()
+    pm = {'getutxosx': 'getutxos', 'gettransactionx': 'gettransaction'}.get(method, method)
+    for p in provs:
+        STATIC[p['id']] = p['static']
+        PROG[(p['id'], 'blockcount')] = p['bc']
+        if pm != 'cacheinfo':
+            PROG[(p['id'], pm)] = p['q']
+    FRANDOM.tb = [p['tb'] / 16.0 for p in provs] or [0.5]
+    FRANDOM.n = 0
+    del CALLS[:]
+    try:
+        srv = Service(network=network, min_providers=int(minp), max_providers=int(maxp), max_errors=int(maxe),
+                      cache_uri=cache_uri)
+    except ServiceError:
+        return 'INITERR'
+    except Exception as e:
+        return 'INITOTHERERR C=%s X=%s' % (','.join(map(str, CALLS)) or '-', type(e).__name__)
+    ncalls_init = len(CALLS)
+    CLOCK[0] += int(dt)
+    exc = ''
+    empty = 'X'
+    try:
+        if method == 'gettransactions':
+            a, after, limit = arg.split('.')
+            ret = xval_token(srv.gettransactions(xaddr(a), after_txid=xid(after), limit=int(limit)))
+        elif method == 'getutxosx':
+            a, after, limit = arg.split('.')
+            ret = xval_token(srv.getutxos(xaddr(a), after_txid=xid(after), limit=int(limit)))
+            if ret == 'X':
+                ret = 'U'
+            empty = 'U'
+        elif method == 'gettransactionx':
+            ret = xval_token(srv.gettransaction(xid(arg)))
+        elif method == 'cacheinfo':
+            d = srv.getcacheaddressinfo(xaddr(arg))
+            ret = 'A' + '.'.join(val_token(d.get(k)) for k in ('balance', 'last_block', 'n_txs', 'n_utxos')) \
+                if 'balance' in d else 'A-'
+        elif method == 'getblock':
+            h, parse, page, limit = arg.split('.')
+            ret = xval_token(srv.getblock(int(h), parse_transactions=parse == '1', page=int(page), limit=int(limit)))
+        else:
+            return 'BADREQ'
+    except ServiceError:
+        ret = 'SERVICEERR'
+    except Exception as e:
+        ret = 'OTHERERR'
+        exc = type(e).__name__
+        try:
+            srv.cache.session.rollback()
+        except Exception:
+            pass
+
+    def rtok(v):
+        t = xval_token(v, ids_only=True)
+        if t == 'X':
+            return empty + 'i'
+        return t
+    r = ','.join('%s:%s' % (k[2:], rtok(v)) for k, v in srv.results.items()) or '-'
+    e = ','.join('%s:%s' % (k[2:], err_token(v)) for k, v in srv.errors.items()) or '-'
+    out = '%s R=%s E=%s N=%s K=%s C=%s|%s' % (ret, r, e, srv.results_cache_n, FLAG.get(srv.complete, '?'),
+                                             ','.join(map(str, CALLS[:ncalls_init])) or '-',
+                                             ','.join(map(str, CALLS[ncalls_init:])) or '-')
+    if exc:
+        out += ' X=' + exc
+    close(srv)
+    return out
 
 
 def run_step(step, network, cache_uri):
@@ -429,6 +724,19 @@ def do_case(line):
         uri = CACHE_URI
     elif mode == 'off':
         uri = ''
+    elif mode in ('xfile', 'xoff'):
+        if XKEYS.get('net') != network:
+            XKEYS.clear()
+        clear_cache()
+        uri = CACHE_URI if mode == 'xfile' else ''
+        WORLD[:] = build_world(toks[2])
+        outs = []
+        for st in toks[3:]:
+            try:
+                outs.append(run_xstep(st, network, uri))
+            except Exception as e:
+                outs.append('CRASH %s %s' % (type(e).__name__, str(e)[:80].replace('\n', ' ')))
+        return ' ; '.join(outs)
     else:
         return 'BADREQ'
     outs = []
